@@ -849,3 +849,32 @@ example : (groupKeys 3600 300 0 2 true true [] [] [[true, false, true], [true, f
     = [([true, false], [[true, false, true], [true, false, false]]), ([false, true], [[false, true, true]])] := by decide
 
 end KadDHT.C17
+
+namespace KadDHT.C17
+open KadDHT KadDHT.Sched KadDHT.Schedule KadDHT.SchedT
+
+/-- taking a history entry into the set of recently reprovided regions is the schedule's own insertion -/
+theorem addRecent_eq_schedule (R : List Key) (q : Key) : addRecent R q = Schedule.schedule R q := rfl
+
+/-- the set of recently reprovided regions is prefix-free, whatever the history holds (so `SubtractTrie` is handed what
+    it expects) -/
+theorem loadRecent_prefixFree (I D now cur : Nat) (S : Entries) (h : Hist) :
+    PrefixFree (loadRecent I D now cur S h).2 := by
+  unfold loadRecent
+  simp only
+  suffices H : ∀ (es : List (Nat × Key)) (R : List Key), PrefixFree R →
+      PrefixFree (es.foldl (fun R e =>
+        if recentRepaired I D now e.1 (untilScheduled I cur S e.2) then addRecent R e.2 else R) R) from
+    H _ [] List.Pairwise.nil
+  intro es
+  induction es with
+  | nil => intro R hR; exact hR
+  | cons e rest ih =>
+    intro R hR
+    simp only [List.foldl_cons]
+    apply ih
+    split
+    · rw [addRecent_eq_schedule]; exact schedule_prefixFree R e.2 hR
+    · exact hR
+
+end KadDHT.C17
